@@ -500,3 +500,266 @@ where
 pub fn enc_pairs<T: Enc>(v: impl Iterator<Item = (T, Index)>) -> crate::sx::Sx {
     crate::sx::l(v.map(|(x, i)| crate::sx::l(vec![x.enc(), crate::sx::z(i)])).collect())
 }
+
+// ------------------------------------------------------------------ generic source views
+// A record container whose SOURCE is an arbitrary view adaptor (range / mask / reverse / rename /
+// access / transpose / index+expansion / chain / stack+index ; MatrixRange / MatrixReverse /
+// a quadrant of a partitioned matrix) over copies of the (number, index) elements of other
+// record containers.  The adaptor is type-erased (Box<dyn TensorMut> / Box<dyn MatrixMut>, both
+// implemented by the crate) and wrapped together with the closure that builds it, so that a
+// second container with the SAME kind of source can be made for the by-value and assign forms.
+use easy_ml::matrices::views::{IndexRange, MatrixRange, MatrixReverse, Reverse};
+use easy_ml::tensors::indexing::TensorTranspose;
+use easy_ml::tensors::views::{
+    DataLayout, TensorChain, TensorExpansion, TensorIndex, TensorMask, TensorRange, TensorRename, TensorReverse,
+    TensorStack,
+};
+use easy_ml::tensors::Dimension;
+use std::any::Any;
+use std::cell::RefCell;
+use std::rc::Rc;
+
+pub type TenBox<E, const D: usize> = Box<dyn TensorMut<E, D>>;
+pub type MatBox<E> = Box<dyn MatrixMut<E>>;
+pub type RebuildT<E, const D: usize> = Rc<dyn Fn() -> TenBox<E, D>>;
+pub type RebuildM<E> = Rc<dyn Fn() -> MatBox<E>>;
+
+thread_local! {
+    /// the builder of the source whose shape was asked for last (see `Dup` below)
+    static LAST_SRC: RefCell<Option<Box<dyn Any>>> = RefCell::new(None);
+}
+
+pub struct DynTen<E: 'static, const D: usize> {
+    inner: TenBox<E, D>,
+    rebuild: RebuildT<E, D>,
+}
+impl<E: 'static, const D: usize> DynTen<E, D> {
+    pub fn new(rebuild: RebuildT<E, D>) -> Self {
+        DynTen { inner: rebuild(), rebuild }
+    }
+}
+// Safety: pure delegation to a TensorRef / TensorMut implementation of the crate.
+unsafe impl<E: 'static, const D: usize> TensorRef<E, D> for DynTen<E, D> {
+    fn get_reference(&self, indexes: [usize; D]) -> Option<&E> {
+        self.inner.get_reference(indexes)
+    }
+    fn view_shape(&self) -> [(Dimension, usize); D] {
+        let r: RebuildT<E, D> = self.rebuild.clone();
+        LAST_SRC.with(|c| *c.borrow_mut() = Some(Box::new(r)));
+        self.inner.view_shape()
+    }
+    unsafe fn get_reference_unchecked(&self, indexes: [usize; D]) -> &E {
+        self.inner.get_reference_unchecked(indexes)
+    }
+    fn data_layout(&self) -> DataLayout<D> {
+        self.inner.data_layout()
+    }
+}
+unsafe impl<E: 'static, const D: usize> TensorMut<E, D> for DynTen<E, D> {
+    fn get_reference_mut(&mut self, indexes: [usize; D]) -> Option<&mut E> {
+        self.inner.get_reference_mut(indexes)
+    }
+    unsafe fn get_reference_unchecked_mut(&mut self, indexes: [usize; D]) -> &mut E {
+        self.inner.get_reference_unchecked_mut(indexes)
+    }
+}
+
+pub struct DynMat<E: 'static> {
+    inner: MatBox<E>,
+    rebuild: RebuildM<E>,
+}
+impl<E: 'static> DynMat<E> {
+    pub fn new(rebuild: RebuildM<E>) -> Self {
+        DynMat { inner: rebuild(), rebuild }
+    }
+}
+unsafe impl<E: 'static> MatrixRef<E> for DynMat<E> {
+    fn try_get_reference(&self, row: usize, column: usize) -> Option<&E> {
+        self.inner.try_get_reference(row, column)
+    }
+    fn view_rows(&self) -> usize {
+        let r: RebuildM<E> = self.rebuild.clone();
+        LAST_SRC.with(|c| *c.borrow_mut() = Some(Box::new(r)));
+        self.inner.view_rows()
+    }
+    fn view_columns(&self) -> usize {
+        self.inner.view_columns()
+    }
+    unsafe fn get_reference_unchecked(&self, row: usize, column: usize) -> &E {
+        self.inner.get_reference_unchecked(row, column)
+    }
+    fn data_layout(&self) -> easy_ml::matrices::views::DataLayout {
+        self.inner.data_layout()
+    }
+}
+unsafe impl<E: 'static> MatrixMut<E> for DynMat<E> {
+    fn try_get_reference_mut(&mut self, row: usize, column: usize) -> Option<&mut E> {
+        self.inner.try_get_reference_mut(row, column)
+    }
+    unsafe fn get_reference_unchecked_mut(&mut self, row: usize, column: usize) -> &mut E {
+        self.inner.get_reference_unchecked_mut(row, column)
+    }
+}
+// Safety: every adaptor boxed here is NoInteriorMutability itself
+unsafe impl<E: 'static> NoInteriorMutability for DynMat<E> {}
+
+pub type TenD<'a, T, const D: usize> = RecordTensor<'a, T, DynTen<(T, Index), D>, D>;
+pub type MatD<'a, T> = RecordMatrix<'a, T, DynMat<(T, Index)>>;
+
+impl<'a, T: Real + Clone + Primitive + 'static, const D: usize> Dup for TenD<'a, T, D> {
+    fn dup(&self) -> Self {
+        let _ = self.shape();
+        let any = LAST_SRC.with(|c| c.borrow_mut().take()).expect("no source builder");
+        let rebuild: RebuildT<(T, Index), D> = *any.downcast::<RebuildT<(T, Index), D>>().expect("source builder type");
+        RecordTensor::from_existing(self.history(), TensorView::from(DynTen::new(rebuild)))
+    }
+}
+impl<'a, T: Real + Clone + Primitive + 'static> Dup for MatD<'a, T> {
+    fn dup(&self) -> Self {
+        let _ = self.rows();
+        let any = LAST_SRC.with(|c| c.borrow_mut().take()).expect("no source builder");
+        let rebuild: RebuildM<(T, Index)> = *any.downcast::<RebuildM<(T, Index)>>().expect("source builder type");
+        RecordMatrix::from_existing(self.history(), MatrixView::from(DynMat::new(rebuild)))
+    }
+}
+
+/// move a value to a type that is the same one at run time (const generic D known to be a literal)
+pub fn cast<A: 'static, B: 'static>(a: A) -> B {
+    let b: Box<dyn Any> = Box::new(a);
+    *b.downcast::<B>().expect("cast between different types")
+}
+
+/// the tensor view kinds of Model/ContainerViews.view_map over copies `bases` of the sources;
+/// None = not a view of the case language (or the constructor refuses the parameters)
+pub fn build_tensor_view<E: Clone + 'static, const D: usize>(
+    kind: i64,
+    params: &[Vec<usize>],
+    bases: &[Tensor<E, D>],
+) -> Option<TenBox<E, D>> {
+    let dim = crate::sx::dim;
+    let b = bases.first()?.clone();
+    let sh = b.shape();
+    let one = bases.len() == 1;
+    Some(match (kind, params) {
+        (0, [starts, lens]) if one && starts.len() == D && lens.len() == D => {
+            let ranges: [(Dimension, IndexRange); D] = std::array::from_fn(|i| (sh[i].0, IndexRange::new(starts[i], lens[i])));
+            Box::new(TensorRange::from_strict(b, ranges).ok()?)
+        }
+        (1, [starts, lens]) if one && starts.len() == D && lens.len() == D => {
+            let masks: [(Dimension, IndexRange); D] = std::array::from_fn(|i| (sh[i].0, IndexRange::new(starts[i], lens[i])));
+            Box::new(TensorMask::from_strict(b, masks).ok()?)
+        }
+        (2, [flags]) if one && flags.len() == D => {
+            let names: Vec<Dimension> = (0..D).filter(|&i| flags[i] != 0).map(|i| sh[i].0).collect();
+            Box::new(TensorReverse::from(b, &names))
+        }
+        (3, [names]) if one && names.len() == D => {
+            let names: [Dimension; D] = std::array::from_fn(|i| dim(names[i]));
+            crate::guarded(move || -> TenBox<E, D> { Box::new(TensorRename::from(b, names)) })?
+        }
+        (4, [perm]) if one && perm.len() == D && perm.iter().all(|&k| k < D) => {
+            let names: [Dimension; D] = std::array::from_fn(|i| sh[perm[i]].0);
+            Box::new(TensorAccess::try_from(b, names).ok()?)
+        }
+        (5, [perm]) if one && perm.len() == D && perm.iter().all(|&k| k < D) => {
+            let names: [Dimension; D] = std::array::from_fn(|i| sh[perm[i]].0);
+            Box::new(TensorTranspose::try_from(b, names).ok()?)
+        }
+        (6, [p]) if one && p.len() == 4 && p[0] < D => {
+            let (k, i, pos, name) = (p[0], p[1], p[2], dim(p[3]));
+            if i >= sh[k].1 || pos > D - 1 {
+                return None;
+            }
+            match D {
+                2 => {
+                    let b2: Tensor<E, 2> = cast(b);
+                    let idx = TensorIndex::<E, _, 2, 1>::from(b2, [(sh[k].0, i)]);
+                    let v: TenBox<E, 2> = crate::guarded(move || -> TenBox<E, 2> { Box::new(TensorExpansion::<E, _, 1, 1>::from(idx, [(pos, name)])) })?;
+                    cast(v)
+                }
+                3 => {
+                    let b3: Tensor<E, 3> = cast(b);
+                    let idx = TensorIndex::<E, _, 3, 1>::from(b3, [(sh[k].0, i)]);
+                    let v: TenBox<E, 3> = crate::guarded(move || -> TenBox<E, 3> { Box::new(TensorExpansion::<E, _, 2, 1>::from(idx, [(pos, name)])) })?;
+                    cast(v)
+                }
+                _ => return None,
+            }
+        }
+        (7, [p]) if bases.len() == 2 && p.len() == 1 && p[0] < D => {
+            let b2 = bases[1].clone();
+            let along = sh[p[0]].0;
+            crate::guarded(move || -> TenBox<E, D> { Box::new(TensorChain::<E, (_, _), D>::from((b, b2), along)) })?
+        }
+        (8, [p]) if bases.len() == 2 && p.len() == 2 && p[0] <= D && p[1] < 2 => {
+            let b2 = bases[1].clone();
+            let (pos, j) = (p[0], p[1]);
+            match D {
+                1 => {
+                    let (x1, x2): (Tensor<E, 1>, Tensor<E, 1>) = (cast(b), cast(b2));
+                    let v: TenBox<E, 1> = crate::guarded(move || -> TenBox<E, 1> {
+                        let st = TensorStack::<E, (_, _), 1>::from((x1, x2), (pos, "stack"));
+                        Box::new(TensorIndex::<E, _, 2, 1>::from(st, [("stack", j)]))
+                    })?;
+                    cast(v)
+                }
+                2 => {
+                    let (x1, x2): (Tensor<E, 2>, Tensor<E, 2>) = (cast(b), cast(b2));
+                    let v: TenBox<E, 2> = crate::guarded(move || -> TenBox<E, 2> {
+                        let st = TensorStack::<E, (_, _), 2>::from((x1, x2), (pos, "stack"));
+                        Box::new(TensorIndex::<E, _, 3, 1>::from(st, [("stack", j)]))
+                    })?;
+                    cast(v)
+                }
+                _ => return None,
+            }
+        }
+        // a BORROWED source: &mut Tensor (leaked: a few elements per case)
+        (9, []) if one => {
+            let m: &'static mut Tensor<E, D> = Box::leak(Box::new(b));
+            Box::new(m)
+        }
+        _ => return None,
+    })
+}
+
+/// the matrix view kinds (0 MatrixRange, 2 MatrixReverse, 9 &mut Matrix, 13 a quadrant of a partitioned matrix)
+pub fn build_matrix_view<E: Clone + 'static>(kind: i64, params: &[Vec<usize>], bases: &[Matrix<E>]) -> Option<MatBox<E>> {
+    if bases.len() != 1 {
+        return None;
+    }
+    let b = bases[0].clone();
+    let (rows, cols) = b.size();
+    Some(match (kind, params) {
+        (0, [starts, lens]) if starts.len() == 2 && lens.len() == 2 => {
+            if lens[0] == 0 || lens[1] == 0 || starts[0] + lens[0] > rows || starts[1] + lens[1] > cols {
+                return None;
+            }
+            Box::new(MatrixRange::from(b, IndexRange::new(starts[0], lens[0]), IndexRange::new(starts[1], lens[1])))
+        }
+        (2, [flags]) if flags.len() == 2 => {
+            Box::new(MatrixReverse::from(b, Reverse { rows: flags[0] != 0, columns: flags[1] != 0 }))
+        }
+        (9, []) => {
+            let m: &'static mut Matrix<E> = Box::leak(Box::new(b));
+            Box::new(m)
+        }
+        (13, [p]) if p.len() == 3 => {
+            let (r, c, q) = (p[0], p[1], p[2]);
+            if r == 0 || r >= rows || c == 0 || c >= cols || q > 3 {
+                return None;
+            }
+            // the parts borrow the partitioned matrix: it is leaked (a few elements per case)
+            let m: &'static mut Matrix<E> = Box::leak(Box::new(b));
+            let quadrants = m.partition_quadrants(r, c);
+            let part = match q {
+                0 => quadrants.top_left,
+                1 => quadrants.top_right,
+                2 => quadrants.bottom_left,
+                _ => quadrants.bottom_right,
+            };
+            Box::new(part.source())
+        }
+        _ => return None,
+    })
+}
